@@ -121,6 +121,7 @@ class StopWorld(World):
         sysd["x0kind"] = x0kind
         x0 = np.zeros(n, dtype=M.dtype) if x0kind == "zero" else common.randn(g, (n,), cplx, round_=3)
         sysd["scale"] = rng.choice([1.0, 1.0, 1.0, 1e-9, 1e-18, 1e6]) if kind in ("gm", "cg", "pdhg", "lls", "l2c") else 1.0
+        sysd["call_style"] = random.Random("stop-callstyle:%d" % seed).choice(["keyword"] * 5 + ["positional"])
         if sysd["scale"] != 1.0:
             # tiny or huge data: a stopping rule must be about fixed points, not absolute sizes
             y = y * sysd["scale"]
@@ -293,6 +294,13 @@ class StopWorld(World):
                 return fn(*a)
             return wrapped
 
+        def construct(name, cls, *a, **kw_):
+            """The documented constructor call, by keyword or - same values - by position."""
+            if sysd.get("call_style") == "positional":
+                a, kw_ = common.as_positional(name, a, kw_)
+                stats["buggify.positional_arguments"] += 1
+            return cls(*a, **kw_)
+
         def mk_prox0(shape):
             if gk == "l1":
                 return sp.prox.L1Reg(shape, lam)
@@ -331,7 +339,7 @@ class StopWorld(World):
                     def Aop(v):
                         return Amat @ v
                 nf = (lambda v: float(np.sqrt(np.real(np.vdot(v, v))))) if sysd.get("norm_func") else None
-                S.alg = A_.PowerMethod(Aop, x, norm_func=nf, max_iter=mi)
+                S.alg = construct("PowerMethod", A_.PowerMethod, Aop, x, norm_func=nf, max_iter=mi)
                 S.site = "PowerMethod"
                 S.solution = lambda: [S.alg.x, np.float64(S.alg.max_eig)]
             else:
@@ -350,7 +358,7 @@ class StopWorld(World):
                 if sysd.get("interfere"):
                     common.run_other_solvers(v.shape, v.dtype, stats)
                 return MH @ (M @ v - y)
-            S.alg = A_.GradientMethod(flaky("gradf", gradf), x, sysd["c"] / L,
+            S.alg = construct("GradientMethod", A_.GradientMethod, flaky("gradf", gradf), x, sysd["c"] / L,
                                       proxg=flaky("proxg", mk_prox([n])) if gk != "none" else None,
                                       accelerate=sysd["accelerate"], max_iter=mi, tol=0)
             S.site = "GradientMethod"
@@ -375,7 +383,7 @@ class StopWorld(World):
                 if sysd.get("interfere"):
                     common.run_other_solvers(v.shape, v.dtype, stats)
                 return Amat @ v
-            S.alg = A_.ConjugateGradient(flaky("A", Acg), b, x, max_iter=mi, tol=0)
+            S.alg = construct("ConjugateGradient", A_.ConjugateGradient, flaky("A", Acg), b, x, max_iter=mi, tol=0)
             S.site = "ConjugateGradient"
             S.solution = lambda: [S.alg.x]
             S.breakdown = lambda: bool(S.alg.not_positive_definite)
@@ -409,7 +417,7 @@ class StopWorld(World):
                 if sysd.get("interfere"):
                     common.run_other_solvers(v.shape, v.dtype, stats)
                 return MH @ v
-            S.alg = A_.PrimalDualHybridGradient(flaky("proxfc", proxfc), flaky("proxg", pg_), flaky("A", Apd),
+            S.alg = construct("PrimalDualHybridGradient", A_.PrimalDualHybridGradient, flaky("proxfc", proxfc), flaky("proxg", pg_), flaky("A", Apd),
                                                 flaky("AH", AHpd), x, u, tau, sigma,
                                                 theta=sysd.get("theta", 1), gamma_dual=gd, max_iter=mi, tol=0)
             S.site = "PrimalDualHybridGradient"
@@ -426,7 +434,7 @@ class StopWorld(World):
             def min2():
                 if q.size:
                     q[...] = np.linalg.lstsq(C, y - B @ p, rcond=None)[0]
-            S.alg = A_.AltMin(min1, min2, max_iter=mi)
+            S.alg = construct("AltMin", A_.AltMin, min1, min2, max_iter=mi)
             S.extra = [p, q]
             S.site = "AltMin"
             S.solution = lambda: [p, q]
@@ -504,7 +512,7 @@ class StopWorld(World):
             x = np.real(x0).copy()
             if sysd.get("x0kind") == "exact" and sysd["fkind"] == "quadratic":
                 x = np.linalg.solve(Hq, cq)
-            S.alg = A_.NewtonsMethod(gradf, inv_hessf, x, beta=sysd["beta"], f=f, max_iter=mi, tol=0)
+            S.alg = construct("NewtonsMethod", A_.NewtonsMethod, gradf, inv_hessf, x, beta=sysd["beta"], f=f, max_iter=mi, tol=0)
             S.site = "NewtonsMethod"
             S.solution = lambda: [S.alg.x]
         elif kind == "gs":
@@ -513,7 +521,7 @@ class StopWorld(World):
             xt = (np.real(x0) + 1.0).reshape(n, 1).astype(np.complex128)
             yy = np.abs(Mc @ xt)
             xs = np.ones((n, 1), dtype=np.complex128)
-            S.alg = A_.GerchbergSaxton(Aop, yy, xs, max_iter=mi, tol=0, lamb=sysd["lamb"])
+            S.alg = construct("GerchbergSaxton", A_.GerchbergSaxton, Aop, yy, xs, max_iter=mi, tol=0, lamb=sysd["lamb"])
             S.site = "GerchbergSaxton"
             S.solution = lambda: [S.alg.x]
         elif kind == "lls":
@@ -533,7 +541,7 @@ class StopWorld(World):
             xdt = yv.dtype
             if sysd.get("x_narrow"):
                 xdt = np.complex64 if yv.dtype.kind == "c" else np.float32
-            S.app = sp.app.LinearLeastSquares(Aop, yv, x=np.zeros(shape, dtype=xdt), lamda=sysd["lamda"],
+            S.app = construct("LinearLeastSquares", sp.app.LinearLeastSquares, Aop, yv, x=np.zeros(shape, dtype=xdt), lamda=sysd["lamda"],
                                               solver=sysd["solver"], max_iter=mi, show_pbar=sysd["show_pbar"],
                                               max_power_iter=5, max_cg_iter=3, **kw)
             S.alg = S.app.alg
